@@ -127,6 +127,7 @@ func parent() {
 	run.Require("evictions", int64(evmSeqTotal()/20))
 	run.Require("flushes", int64(evmSeqTotal()/100))
 	run.Require("histories_promotion_at_capacity", int64(evmSeqTotal()/40))
+	run.Require("histories_gap_filler_at_waiting_capacity", int64(evmSeqTotal()/40))
 	run.Require("histories_reaching_capacity", int64(evmSeqTotal()/50))
 	run.Require("submit_admin", int64(evmSeqTotal()/10))
 	run.Require("mem_commits", int64(memSeqTotal()))
